@@ -105,6 +105,8 @@ def stepJ (j : Json) : R Op := do
   | "provider" => return .provider (← natF j "owner") (← optF asNat j "initial") (← natF j "fallback")
   | "use_ctx" => return .useCtx (← natF j "owner")
   | "tick" => return .tick
+  | "sub_wired" => return .subWired (← optF asNat j "parent") (← natF j "locale")
+  | "wire_set" => return .wireSet (← natF j "wire") (← natF j "locale")
   | o => .error s!"unknown step op {o}"
 
 def obsJ : Obs → Json
@@ -117,6 +119,7 @@ def obsJ : Obs → Json
   | .provided v o c => jobj [("view", jnat v), ("owner", jnat o), ("ctx", jnat c)]
   | .found v c => jobj [("view", jnat v), ("ctx", jnat c)]
   | .notFound => jobj [("not_found", Json.bool true)]
+  | .wired v w => jobj [("view", jnat v), ("wire", jnat w)]
   | .bad => jobj [("bad", Json.bool true)]
 
 /-- `{"op":"ctx.ops","steps":[..]}`: observations of the cell machine and of the history specification -/
@@ -126,8 +129,9 @@ def opOps (j : Json) : R Json := do
   let spec := Spec.observations ops
   -- final read-back of every view
   let fin := (List.range s.views.length).map (fun v => jopt jnat (s.read v))
+  let wires := s.wires.map (fun w => jobj [("ctx", jnat w.ctx), ("val", jnat w.val), ("seen", jnat w.seen)])
   return jobj [("model", jarr (obs.map obsJ)), ("spec", jarr (spec.map obsJ)), ("final", jarr fin),
-    ("contexts", jnat s.cells.length)]
+    ("contexts", jnat s.cells.length), ("wires", jarr wires)]
 
 end CtxOps
 
